@@ -109,6 +109,13 @@ theorem C18_cycle_after_resize (p : Params) (hp : p.RingOK) (pre : List (Op α))
   simp only [pending, capacity, Spec.run_append, Spec.run_stores, Spec.run, Spec.step, hc', if_false,
     List.nil_append]
 
+/-- non-vacuity of `C18_cycle_after_resize` (capacity 2 → 3 in the middle of a wrapped cycle) and of the
+    hypothesis `RingOK` (`good_ok`: the repaired structure satisfies it) -/
+example : capFrom 0 ([.setCapacity 2, .store 1, .store 2, .store 3] : List (Op Nat)) ≠ 3 ∧
+    (process Params.good (run Params.good {}
+      ([.setCapacity 2, .store 1, .store 2, .store 3] ++ [.setCapacity 3] ++ [4, 5, 6, 7].map .store))).2 = [5, 6, 7] ∧
+    Params.good.RingOK := by decide
+
 /-- re-initialising with the capacity already in force changes nothing -/
 theorem C18_same_capacity_noop (r : Ring α) : setCapacity r r.cap = r := by simp [setCapacity]
 
